@@ -35,7 +35,7 @@ class Boom(Exception):
 
 def plan(tier, seed):
     if tier == 'quick':
-        return {'n': 14000, 'deadline': 50, 'case_timeout': 60,
+        return {'n': 10000, 'deadline': 150, 'case_timeout': 60,
                 'floor': {'distinct_nontrivial': 2000, 'executions': 50000, 'close_points': 10000,
                           'drop_points': 10000, 'throw_points': 10000, 'user_raise_points': 5000,
                           'variables_created_during_runs': 50000, 'with_outer_bindings': 10000}}
